@@ -40,7 +40,10 @@ RULE = ("the real ConcurrentTestSuite / ConcurrentStreamTestSuite with 0-4 sub-s
         "dies), make_tests raising after k sub-suites, an interrupt at the n-th queue.get, the caller's result raising "
         "at a chosen call; schedules: every schedule with <= 1 (quick) / <= 2 (thorough) preemptions for fixed "
         "programs, seeded random otherwise; non-trivial = >= 2 workers each emitting >= 1 event; distinct = distinct JSON")
-TRUSTED = ["harness/vcheck/sched.py: deterministic scheduler for real threads; yield points at Thread.start, "
+TRUSTED = ["harness/vcheck/sched.py: stands in for the whole small vocabulary of `threading` (Thread, Semaphore, "
+           "BoundedSemaphore, Lock, RLock, Event, Condition) and of `queue` (Queue / SimpleQueue with blocking, timed and "
+           "non-blocking get; a timed wait expires only when no thread can move) - which primitives the code uses is open",
+           "harness/vcheck/sched.py: deterministic scheduler for real threads; yield points at Thread.start, "
            "queue.put/get (get enabled only when non-empty), Thread.join (enabled only when the worker finished), "
            "semaphore.acquire/release and every call on the caller's result; preemption between yield points is not "
            "explored (PARTIAL)",
@@ -56,6 +59,9 @@ ASSUMPTIONS = ["a sub-suite's run(result) does not catch what the result raises 
                "on an abort the workers told to stop are observed as a set (flags); the comparison with the model "
                "(Corr.C13.alpha) is per thread, not of the global interleaving, ignores main's acquire/stop()/release "
                "inside the abort handler and the live flags of an aborted run",
+               "the interrupt of the caller of run() arrives in its FIRST blocking wait for its workers (queue.get, or "
+               "Thread.join where the code uses no queue): how many waits there are is not fixed by the statement, so "
+               "'the n-th wait' means the same for every allowed implementation only for n = 0",
                "fault plans are per thread (the k-th call of thread t on the caller's result raises); for the caller of "
                "the classic suite's run() only the FIRST stop() of the abort handler is made to raise (number and order "
                "of these calls are not fixed by the statement)"]
@@ -345,16 +351,48 @@ def drive(case):
         else:
             state["stops"] = [w for w, r in enumerate(recorders) if r.stopped]
 
-    saved = (ts.threading, ts.Queue, ts.testtools)
+    # every name through which the module under test can reach a queue class: `Queue` / `SimpleQueue` imported
+    # into it, or the `queue` module itself
+    import queue as _stdqueue
+
+    class QueueModule:
+        Queue = LifoQueue = PriorityQueue = SimpleQueue = staticmethod(make_queue)
+        Empty, Full = _stdqueue.Empty, _stdqueue.Full
+    rebound = {"threading": ns, "Queue": make_queue}
+    for name in ("SimpleQueue", "LifoQueue"):
+        if hasattr(ts, name):
+            rebound[name] = make_queue
+    if hasattr(ts, "queue"):
+        rebound["queue"] = QueueModule
+    if stream:
+        rebound["testtools"] = TesttoolsProxy()
+    if case["get_intr"] is not None:
+        # code that waits for its workers WITHOUT any queue (join only): the interrupt arrives in the n-th join
+        waits = {"n": 0}
+
+        def join_hook(th):
+            if sched.current_tid() != 0 or queues:
+                return
+            k = waits["n"]
+            waits["n"] += 1
+            if k == case["get_intr"]:
+                sched.park()
+                trace.append((0, "getintr"))
+                raise BoomBase()
+        ns.Thread.join_hook = staticmethod(join_hook)
+    missing = object()
+    saved = {name: getattr(ts, name, missing) for name in rebound}
     try:
-        ts.threading = ns
-        ts.Queue = make_queue
-        if stream:
-            ts.testtools = TesttoolsProxy()
+        for name, value in rebound.items():
+            setattr(ts, name, value)
         sched.spawn(main)
         sched.run()
     finally:
-        ts.threading, ts.Queue, ts.testtools = saved
+        for name, value in saved.items():
+            if value is missing:
+                delattr(ts, name)
+            else:
+                setattr(ts, name, value)
         sched.shutdown()
     if sched.hung:
         raise RuntimeError("a thread neither reached a yield point nor finished (hung)")
@@ -369,7 +407,7 @@ def drive(case):
                 queues[0].n_attachments_put, target.n_invisible))
     sem_free = True
     if not stream and ns.semaphores:
-        sem_free = ns.semaphores[0].count == 1
+        sem_free = all(m.count == m.initial for m in ns.semaphores)
     return {"trace": [list(e) for e in trace], "raised": bool(state["raised"]), "live": state["live"] or [],
             "stops": state["stops"] or [], "deadlock": sched.deadlock, "sem_free": sem_free}
 
@@ -456,6 +494,7 @@ def term(case, o):
 def perturb(case, o):
     o = dict(o)
     o["trace"] = [list(e) for e in o["trace"]] + [[0, "getintr"]]
+    o["deadlock"] = not o["deadlock"]      # something the comparison (Corr.C13.alpha) keeps for every input
     return o
 
 
@@ -547,7 +586,7 @@ def generate(rng, tier):
         cases.append(mk_case(v, [one, one], [0, 1, 2] * 20, mt_raise=1))
         cases.append(mk_case(v, [one, one], [2, 1, 0] * 20, mt_raise=2))
         cases.append(mk_case(v, [one, one], [1, 2, 0] * 20, get_intr=0))
-        cases.append(mk_case(v, [one, one], [1] * 12 + [0] * 4 + [2] * 12, get_intr=1, base=True))
+        cases.append(mk_case(v, [one, one], [1] * 12 + [0] * 4 + [2] * 12, get_intr=0, base=True))
         cases.append(mk_case(v, [one, one], [0, 0, 1, 2] * 10, main_faults=[0]))
         cases.append(mk_case(v, [one, one], [0, 0, 1, 2] * 10, get_intr=0, main_faults=[0]))
     # stream-native workers spelling the timestamp in each way, alone and next to each other
@@ -566,7 +605,7 @@ def generate(rng, tier):
         for sched in ([], list(range(1, nw + 1)) * 12, list(range(nw, -1, -1)) * 10, [0, nw, 0, 1] * 8):
             cases.append(mk_case("stream", suites, sched))
             cases.append(mk_case("stream", suites, sched, mt_raise=nw - 1))
-            cases.append(mk_case("stream", suites, sched, get_intr=nw))
+            cases.append(mk_case("stream", suites, sched, get_intr=0))
             cases.append(mk_case("stream", suites, sched, main_faults=[2], base=True))
     # a worker LEAVING _run_test with an exception must still post its completion token:
     # (a) run() raises and the caller's result raises while the broken-runner test is reported,
@@ -593,14 +632,14 @@ def generate(rng, tier):
             cases.append(mk_case(v, suites, s))
         # abort variants under a sample of those schedules
         per = 40 if quick else 400
-        variants = [dict(mt_raise=k) for k in range(len(suites) + 1)] + [dict(get_intr=k) for k in range(len(suites) + 1)]
+        variants = [dict(mt_raise=k) for k in range(len(suites) + 1)] + [dict(get_intr=0), dict(get_intr=0)]
         if v == "stream":
             variants += [dict(main_faults=[k]) for k in range(6)]
         else:
             # classic: the only call main makes on the caller's result is stop() inside the abort handler.  How many
             # such calls there are, and for which worker first, is left open by the statement, so "the k-th one
             # raises" means the same thing for every allowed behaviour only for k = 0 (the first one)
-            variants += [dict(get_intr=k, main_faults=[0]) for k in range(2)] + [dict(mt_raise=1, main_faults=[0])]
+            variants += [dict(get_intr=0, main_faults=[0]), dict(mt_raise=1, main_faults=[0]), dict(mt_raise=2, main_faults=[0])]
         for kw in variants:
             for s in rng.sample(scheds, min(per, len(scheds))):
                 cases.append(mk_case(v, suites, s, base=rng.random() < 0.3, **kw))
@@ -620,7 +659,7 @@ def generate(rng, tier):
         if r < 0.15:
             kw["mt_raise"] = rng.randint(0, nw)
         elif r < 0.35:
-            kw["get_intr"] = rng.randint(0, nw + (3 if v == "stream" else 0))
+            kw["get_intr"] = 0
         if rng.random() < (0.3 if v == "stream" else 0.15):
             kw["main_faults"] = [rng.randrange(6)] if v == "stream" else [0]
         style = rng.random()
@@ -660,11 +699,13 @@ def shrink(case):
         for w, s in enumerate(ss):
             if suite_route(s, w) != 20 + w:
                 yield dict(case, suites=ss[:w] + [dict(s, route=20 + w)] + ss[w + 1:])
-    for key in ("mt_raise", "get_intr"):
+    for key in ("mt_raise",):
         if case[key] is not None:
             yield dict(case, **{key: None})
             if case[key] > 0:
                 yield dict(case, **{key: case[key] - 1})
+    if case["get_intr"] is not None:
+        yield dict(case, get_intr=None)
     if case["main_faults"]:
         yield dict(case, main_faults=[])
     if case["base"]:
